@@ -64,12 +64,15 @@ package syncer
 //@   ensures already_deleted: err == nil && hdrFlags(oldval) & 1 != 0 ==> sameSlice(val, oldval)
 //@   ensures marker: err == nil && hdrFlags(oldval) & 1 == 0 ==> wfHeader(val) && hdrFlags(val) == 1 && seqLen(appSeq(val)) == 0 && hdrTS(val) == uint64(it.DefaultTimestampNano) && hdrTxn(val) == uint64(it.TxnID)
 
+// Projection of the merged shadow state into the application DBI: a live
+// entry yields exactly its value (also when that value is empty), a deleted
+// entry yields "delete the key".
 //@ func (it *PlainIterator) Merge
 //@   nopanic
 //@   pure
 //@   ensures ok: err == nil
-//@   ensures deleted_absent: len(it.curKV.Value) == 0 ==> isnil(val)
-//@   ensures live_present: len(it.curKV.Value) > 0 ==> sameSlice(val, it.curKV.Value)
+//@   ensures deleted_absent: it.curKV.Flags & 1 != 0 && len(it.curKV.Value) == 0 ==> isnil(val)
+//@   ensures live_present: it.curKV.Flags & 1 == 0 ==> !isnil(val) && sameSlice(val, it.curKV.Value)
 
 //@ func (it *PlainIterator) Clean
 //@   nopanic
